@@ -12,7 +12,8 @@ From Coq Require Import String Permutation.
 From SLX Require Import Base Word256 PackingArith gen.Constants gen.ValueSig gen.OpcodeTable gen.PassOrder gen.RulesSig gen.WordUseTable gen.LayoutKey
   SymVal Micro gen.OpcodeSem Disasm VM Fold PassesSlots PassesPacking TypeExpr Merge VectorMap DisjointSet Register Rules
   Unify AbiT Layout Abi PolledLoop Pipeline NoPanic.
-From SLX.proofs Require Import PipelinePolls LayoutProofs RegisterProofs UnifyProofs AbiProofs PipelineProofs PipelineInSlot.
+From SLX Require Import TcCases.
+From SLX.proofs Require Import PipelinePolls LayoutProofs RegisterProofs RulesProofs UnifyProofs AbiProofs TcStagesProofs PipelineProofs PipelineInSlot.
 Open Scope N_scope.
 
 (* ---- registration: every new expression is the typed image of a subterm ---- *)
@@ -109,4 +110,27 @@ Proof.
   pose proof (infer_values_slots_from _ _ _ _ _ Ei S0 w x Hin Ht) as Hreg.
   unfold assign_vars in Hreg. destruct (reg_list_exprs_from lifted empty_tcs inv_empty w x Hreg) as [[]|(v & Hv & Hs)].
   exists v. split; [exact Hv|]. exists a0, c. rewrite <- Ex. exact Hs.
+Qed.
+
+(* ---- the converse at the same level (the C06 direction): every StorageSlot node with a literal key in a lifted value is
+   reported, whatever unification made of its type ---- *)
+Theorem pipeline_slot_nodes_reported_lemma keccak table mode fu bytes cfg l :
+  analyze_model_fuel keccak table mode fu bytes cfg = PLayout l ->
+  exists lifted, (exists code m, try_from bytes = Ok code /\ run_p constant_fold (f_vm fu) (init_vm code cfg) = RDone m /\
+    Forall2 (fun v v' => lift_value keccak table v = Ok v') (unique (all_values mode (v_stored m))) lifted) /\
+  forall c v, In v lifted -> In (slot_sv c) (subterms v) -> exists off ty, In (c, off, ty) l.
+Proof.
+  intros H. destruct (analyze_layout_inv _ _ _ _ _ _ _ H) as [code m lifted st' s n Ed Ev Ee El Ei Eb].
+  exists lifted. split; [exists code, m; auto|]. intros c v Hv Hs.
+  pose proof (register_covers_subterms_lemma lifted) as C. destruct (assign_vars lifted) as [ts st0] eqn:Ea. cbn [snd] in Ei.
+  destruct C as (I & _ & _ & Cov).
+  destruct (Cov _ (slot_sv c) Hv Hs) as (y & Iy & Ey).
+  destruct (infer_values_ok (pipeline_rules mode) (pipeline_rules_good mode) (tc_values mode (Register.values st0)) st0 (inv_winv st0 I))
+    as (st2 & E2 & _ & _ & K).
+  { intros x Hx. unfold tc_values in Hx. apply arrange_in in Hx. exact (values_in_exprs st0 x (inv_winv st0 I) (i_var st0 I) Hx). }
+  rewrite Ei in E2. inversion E2; subst st2.
+  destruct (layout_row_per_const_slot_gen abi_nested_add _ _ _ _ _ _ Eb) as (_ & Rows).
+  apply (Rows y c); [|exact (const_slot_of_erase y c Ey)].
+  unfold tc_values. apply arrange_in. apply in_or_app. left. unfold Register.values. rewrite <- in_rev.
+  apply in_map_iff. exists (tv_of y, y). split; [reflexivity|exact (K _ Iy)].
 Qed.
